@@ -10,13 +10,14 @@
 (***************************************************************************)
 EXTENDS Api, TLC, Json
 
-CONSTANT L
+CONSTANTS L, EXT      \* EXT = 1 adds user functions and serialization round trips to the alphabet
 
 I(n) == [k |-> "lit", v |-> VInt(BFromInt(n))]
 Id(n) == [k |-> "id", n |-> n]
 Bin(op, l, r) == [k |-> "bin", op |-> op, l |-> l, r |-> r]
 Src == [S1 |-> Bin("+", Id("x"), I(1)),
         S2 |-> Bin("+", Id("q"), I(1)),
+        S4 |-> Bin("+", [k |-> "call", f |-> "f", args |-> <<Id("x")>>], I(1)),
         S3 |-> [k |-> "mcall", r |-> [k |-> "list", es |-> <<I(1), I(2)>>], f |-> "map", fc |-> <<109, 97, 112>>,
                 args |-> <<Id("e"), Bin("+", Id("e"), Id("x"))>>]]
 Names == {"p", "q"}
@@ -34,8 +35,13 @@ Events ==
     \cup (IF Cardinality(Ctxs) = 1 THEN {[a |-> "CloneCtx", c |-> 1, as |-> 2]} ELSE {})
     \cup (IF Cardinality(Binds) < 2 THEN {[a |-> "NewBind", b |-> Cardinality(Binds) + 1]} ELSE {})
     \cup (IF Cardinality(Binds) = 1 THEN {[a |-> "CloneBind", b |-> 1, as |-> 2]} ELSE {})
-    \cup {[a |-> "AddProgram", c |-> c, n |-> n, tree |-> Src[s], src |-> s, ok |-> TRUE] : c \in Ctxs, n \in Names, s \in DOMAIN Src}
+    \cup {[a |-> "AddProgram", c |-> c, n |-> n, tree |-> Src[s], src |-> s, ok |-> TRUE] : c \in Ctxs, n \in Names,
+              s \in (IF EXT = 0 THEN DOMAIN Src \ {"S4"} ELSE {"S2", "S4"})}
     \cup {[a |-> "BindParam", b |-> b, n |-> "x", v |-> v] : b \in Binds, v \in GVals}
+    \cup (IF EXT = 0 THEN {} ELSE {[a |-> "BindFunc", b |-> b, n |-> "f", f |-> f] : b \in Binds, f \in {"k7", "kerr"}})
+    \cup (IF EXT = 0 THEN {} ELSE
+          UNION {{[a |-> "SerRound", c |-> c, n |-> n, fmt |-> fmt, to |-> to, as |-> "q", ok |-> TRUE] :
+                    n \in Names \cap DOMAIN st.ctxs[c], fmt \in {"json", "bincode"}, to \in Ctxs} : c \in Ctxs})
     \cup {[a |-> "Exec", c |-> c, b |-> b, n |-> n] : c \in Ctxs, b \in Binds, n \in Names}
 
 Extend == /\ Len(hist) < L
@@ -46,11 +52,14 @@ Emit == /\ Len(hist) = L
         /\ UNCHANGED vars
 Next == Extend \/ Emit
 
-Fresh(c, b) == [ctxs |-> [x \in {c} |-> st.ctxs[c]], binds |-> [x \in {b} |-> st.binds[b]]]
+Fresh(c, b) == [ctxs |-> [x \in {c} |-> st.ctxs[c]], binds |-> [x \in {b} |-> st.binds[b]], funcs |-> [x \in {b} |-> st.funcs[b]]]
 ExecFunctional == \A c \in Ctxs, b \in Binds, n \in Names :
     LET ev == [a |-> "Exec", c |-> c, b |-> b, n |-> n] IN ExecOutcome(st, ev) = ExecOutcome(Fresh(c, b), ev)
 (* a clone starts equal and an exec or details call never changes any object *)
 PureStep == [][(hist' # hist /\ hist'[Len(hist')].a = "Exec") => st' = st]_vars
 CloneStep == [][(hist' # hist /\ hist'[Len(hist')].a = "CloneCtx") =>
-                  (st'.ctxs[2] = st.ctxs[1] /\ st'.ctxs[1] = st.ctxs[1] /\ st'.binds = st.binds)]_vars
+                  (st'.ctxs[2] = st.ctxs[1] /\ st'.ctxs[1] = st.ctxs[1] /\ st'.binds = st.binds /\ st'.funcs = st.funcs)]_vars
+(* a program taken through serialization is the program: the copy and the original are indistinguishable to Exec *)
+SerStep == [][(hist' # hist /\ hist'[Len(hist')].a = "SerRound") =>
+                LET ev == hist'[Len(hist')] IN st'.ctxs[ev.to][ev.as] = st.ctxs[ev.c][ev.n] /\ st'.binds = st.binds /\ st'.funcs = st.funcs]_vars
 =============================================================================
